@@ -1116,6 +1116,17 @@ def run(tier, seed):
             chk.case(("model-same-spelling", name, m, d0, d1))
             chk.count("model-same-spelling")
 
+    # floor division refuses what true division refuses (offset scales, logarithmic units)
+    for a_, b_ in [("degC", "degC"), ("mdegC", "mK"), ("degF", "degF"), ("degC", "K"), ("K", "degC"), ("dB", "dB"), ("Np", "dB"),
+                   ("K", "R"), ("delta_degC", "K"), ("lat", "degree")]:
+        try:
+            q0, q1 = unyt_quantity(7.0, a_), unyt_quantity(2.0, b_)
+        except Exception:  # noqa: BLE001
+            continue
+        for nm in ("floor_divide", "divide"):
+            add_binary_case(nm, q0, q1, tag="refusal")
+            chk.case(("model-refusal", nm, a_, b_))
+
     # nested units from the programs
     for P, gs, custom in dag_nodes_for_model:
         # re-run on the reference spelling to get the operand quantities
